@@ -132,6 +132,21 @@ class SLock:
         self.held = False
         self.owner = None
 
+    # the rest of the threading.Lock interface: code that takes the lock with acquire()/release() instead of `with` is the same code
+    def acquire(self, blocking=True, timeout=-1):
+        if not blocking and self.held:
+            return False
+        self.__enter__()
+        return True
+
+    def release(self):
+        if not self.held:
+            raise RuntimeError("release unlocked lock")
+        self.__exit__(None, None, None)
+
+    def locked(self):
+        return self.held
+
 
 def make_deques(sched):
     class RDeque(collections.deque):
